@@ -50,6 +50,7 @@ namespace {
 #include SNIP_HS_DIGEST
 #include SNIP_HS_POW_VALID
 #include SNIP_MATERIAL
+#include SNIP_AUTO
 }
 #include SNIP_PERFORM_HANDSHAKE
 }
